@@ -53,3 +53,4 @@ fn range_lookup<const KF: usize>() {
     kani::cover!(best.is_none() && nr > 0, "page before first range reached");
     kani::cover!(true, "end reached");
 }
+
